@@ -180,12 +180,19 @@ pub fn client_bytes(codec: Codec, ctx_deadline: Option<Instant>, input: &[u8]) -
                 }
                 let call = async move { ch.call(ctx, "probe".to_string()).await };
                 futures::pin_mut!(call);
-                let waker = futures::task::noop_waker();
+                // tasks run only when woken: a dispatch that goes to sleep on input it has not
+                // read, with no wake-up arranged, stays asleep (the call is then lost)
+                let flag = crate::mock::Flag::new(true);
+                let waker = std::task::Waker::from(flag.clone());
                 let mut cx = Context::from_waker(&waker);
                 let mut call_out = None;
                 let mut disp_out = None;
                 let mut stuck = true;
                 for _ in 0..20_000 {
+                    if !flag.is_set() {
+                        break;
+                    }
+                    flag.clear();
                     if call_out.is_none() {
                         if let Poll::Ready(o) = call.as_mut().poll(&mut cx) {
                             call_out = Some(match o {
@@ -208,7 +215,7 @@ pub fn client_bytes(codec: Codec, ctx_deadline: Option<Instant>, input: &[u8]) -
                         break;
                     }
                     if disp_out.is_some() && call_out.is_none() {
-                        // the dispatch is gone; the caller must notice at its next poll
+                        // the dispatch is gone (dropped above); the caller is woken by that drop
                         continue;
                     }
                 }
